@@ -362,6 +362,10 @@ pub fn history(cfg: &Cfg, rep: &mut Report, h: u64, steps: usize, mode: Mode, of
                 rep.check("diff", mw == want, "C05/diff/max_withdraw", || format!("max_withdraw(user {who}) = {mw:?}, exact {want:?} (shares {}, A={a_tot}, S={s_tot})", pre.shares[who]));
                 let mr = v.getter_addr("max_redeem", who).ok();
                 rep.check("diff", mr == Some(pre.shares[who]), "C05/diff/max_redeem", || format!("max_redeem(user {who}) = {mr:?}, balance {}", pre.shares[who]));
+                // documented: deposits and mints are not limited
+                let md = v.getter_addr("max_deposit", who).ok();
+                let mm = v.getter_addr("max_mint", who).ok();
+                rep.check("diff", md == Some(i128::MAX) && mm == Some(i128::MAX), "C05/diff/max_deposit-max_mint", || format!("max_deposit(user {who}) = {md:?}, max_mint = {mm:?}; documented: i128::MAX"));
             }
         }
         // ---------- execute ----------
